@@ -44,7 +44,7 @@ def _settings(rng):
     if rng.random() < 0.35:
         s["premium"] = True
     if rng.random() < 0.4:
-        s["default_bg"] = rng.choice(("black", "#222", "rgb(250, 250, 240)", "#FFFFFF", "navy", "hsl(0, 0%, 20%)", "#eee", "gray", "var(--page-bg)", "var(--page-bg, #fafafa)"))
+        s["default_bg"] = rng.choice(("black", "#222", "rgb(250, 250, 240)", "#FFFFFF", "navy", "hsl(0, 0%, 20%)", "#eee", "gray", "var(--page-bg)", "var(--page-bg, #fafafa)", "notacolor", "WHITE", "#FFF"))
     return s
 
 
@@ -54,6 +54,8 @@ def generate(rseed, tier, idx):
     settings = _settings(g)
     feats = gen.draw_features(g, C08_FEATURES, g.choice((0.15, 0.3, 0.5)))
     ast = gen.gen_sheet(g, feats, settings, max_rules=8)
+    if g.random() < 0.03:  # nothing to do at all: empty or comment-only stylesheet
+        ast = {"items": [{"t": "raw", "text": "/* nothing here */"}] if g.random() < 0.5 else [], "style": "pretty"}
     env = {"cwd": e.choice(("cwd", "cwd", "tree")), "tty": e.random() < 0.3, "argform": e.choice(("abs", "abs", "rel")),
            "inv": e.choice(("file", "file", "dir")), "name": e.choice(("a.css", "style.css", "my style.css", "thème.css"))}
     tr = {"prop": ID, "ast": ast, "feats": feats, "settings": settings, "env": env, "subproc": idx % 16 == 3}
